@@ -11,6 +11,7 @@ import (
 	"strings"
 
 	. "github.com/apmckinlay/gsuneido/core"
+	"github.com/apmckinlay/gsuneido/db19"
 	vk "github.com/apmckinlay/gsuneido/util/verifkit"
 )
 
@@ -55,6 +56,7 @@ type vfResult struct {
 func vfInitEngine() {
 	sortForTest = true // deterministic (sorted) summarize list results
 	MakeSuTran = func(qt QueryTran) *SuTran { return nil }
+	db19.MakeSuTran = func(ut *db19.UpdateTran) *SuTran { return NewSuTran(nil, true) }
 	vfDefineFuncs()
 }
 
